@@ -17,7 +17,7 @@ idle server connections in the pool after every transaction.
 A second scenario kind drives the real src/fd.cc (harness/h_fdleak.cc) with random fd_open/fd_close sequences against
 the model's transcription of fd_open/fd_close/fdUpdateBiggest."""
 import concurrent.futures, json, os, random, re, socket, struct, threading, time
-from vlib import std, lab, common, hbuild
+from vlib import std, lab, common, hbuild, recipes
 
 PID = "C08"
 META = {
@@ -445,11 +445,12 @@ def _run_history(inst, s, hid):
 
 def _fdops_exe():
     if "fdexe" not in _state:
-        _state["fdexe"] = hbuild.build("fdleak", "h_fdleak.cc", fresh=["src/fd.cc"], link=FD_LINK, sanitize="ubsan")
+        _state["fdexe"] = hbuild.build("fdleak", "h_fdleak.cc", fresh=["src/fd.cc", "src/fde.cc"], link=FD_LINK, sanitize="ubsan")
     return _state["fdexe"]
 
 
-FD_LINK = []
+# testHttpReply's link recipe without the fd.cc / fde.cc stubs; the harness supplies Comm::SetSelect itself
+FD_LINK = [l for l in recipes.HTTPREPLY if l not in ("tests/stub_fd.o", "tests/stub_fde.o")] + ["-Wl,--allow-multiple-definition"]
 
 
 def _setup(L):
